@@ -173,10 +173,11 @@ def gen_txn_case(rng, hostile_p):
         # builder calls in another order; comments and charges keep the order of their calls
         rng.shuffle(ops)
         info["comments"] = [dec(o[len("(comment "):-1]) for o in ops if o.startswith("(comment ")]
-        by_payee = {}
+        # (keyed by the whole op text: two charges may carry the same payee)
+        by_op = {}
         for c in info["charges"]:
-            by_payee.setdefault(enc(c[0]), []).append(c)
-        info["charges"] = [by_payee[o.split(" ")[1]].pop(0) for o in ops if o.startswith("(charge ")]
+            by_op.setdefault("(charge %s %s)" % (enc(c[0]), amt_sx(c[1], c[2])), []).append(c)
+        info["charges"] = [by_op[o].pop(0) for o in ops if o.startswith("(charge ")]
     line = "(txn %s %s %s %s (%s) %s)" % (date_sx(date), enc(payee), amt_sx(amount, com), enc(src),
                                          " ".join("(%s %d)" % (enc(c), p) for c, p in sorted(prec.items())), " ".join(ops))
     return line, info
